@@ -140,6 +140,24 @@ def checkEffects (fs : List FnEffect) (moduleWrites : List String) : Bool :=
   fs.all fnClean && moduleWrites.all (allowedModuleWrites.contains ·) &&
     requiredFunctions.all (fun n => fs.any (fun f => f.name == n))
 
+/-! ### per-property scope: the modules a property's functions live in, closed under `import` -/
+
+/-- modules reachable from `roots` along the package's own imports (fuel = number of rounds; the package has under ten modules) -/
+def modClosure (imports : List (String × List String)) : Nat → List String → List String
+  | 0, ms => ms
+  | fuel + 1, ms =>
+    let next := ms ++ (ms.flatMap (fun m => (imports.lookup m).getD [])).filter (fun m => !ms.contains m)
+    modClosure imports fuel next.eraseDups
+
+/-- every function of the modules in scope is clean, and those modules register nothing at import time beyond the permitted;
+`byModule` / `writesByModule` are the summary's rows and the import-time writes grouped by module -/
+def scopeClean (byModule : List (String × List FnEffect)) (writesByModule : List (String × List String))
+    (imports : List (String × List String)) (roots : List String) : Bool :=
+  let ms := modClosure imports 12 roots
+  (byModule.filter (fun g => ms.contains g.1)).all (fun g => g.2.all fnClean) &&
+    (writesByModule.filter (fun g => ms.contains g.1)).all (fun g => g.2.all (allowedModuleWrites.contains ·)) &&
+    roots.all (fun r => ((byModule.lookup r).getD []).length != 0)
+
 /-- Semantics of a summary: the shared store is a list of named cells; executing the function may
 change exactly the cells its summary lists (here: to an arbitrary new value chosen by `newVal`). -/
 def stepOf (f : FnEffect) (newVal : String → Nat → Nat) (compute : List (String × Nat) → Nat → Nat) :
